@@ -59,7 +59,7 @@ theorem unary_minus_counterexample :
 
 /-- **`()`, `(1 + )` and `-` are compiled** although they are not expressions: `Step()` ignores `)`,
 `LocationPath()` accepts the empty token; the result is an empty location path. -/
-theorem accepts_nonexpr_counterexample :
+theorem accepts_nonexpr_counterexample : locationPathRequiresStep = false →
     compile [.lpar, .rpar] = some (mk [eOP_GROUP, 5, eOP_LOCATIONPATH, 3, eENDOP]) ∧
     (compile [.lpar, .num 0 1, .plus, .rpar]).isSome ∧ (compile [.minus]).isSome ∧
     (compile [.num 0 0, .bang, .eq, .num 1 3]).isSome := by decide
@@ -158,6 +158,34 @@ pre-order table satisfies `WF` is checked per document, not proved. -/
 theorem axes_spec_descendant_partial (d : Doc) (hw : d.WF) (n : Nat) (hn : n < d.length) (orSelf : Bool) :
     d.findDescendants orSelf n = d.axis (if orSelf then .descendantOrSelf else .descendant) n :=
   Doc.findDescendants_spec d hw n hn orSelf
+
+/-- **`axes_spec`, following axis, all well-formed documents**: `XPath::findFollowing` (never into the context's
+subtree; an attribute context continues with its owner's first child) returns exactly the axis, in document order. -/
+theorem axes_spec_following_partial (d : Doc) (hw : d.WF) (n : Nat) (hn : n < d.length) :
+    d.findFollowing n = d.axis .following n :=
+  Doc.findFollowing_spec d hw n hn
+
+/-- **`axes_spec`, preceding axis, all well-formed documents**: `XPath::findPreceeding` (pre-order walk from the top
+node to the context, skipping the context's ancestors, then `reverse()`) returns exactly the axis, in reverse document
+order.  `_partial` for all three walk theorems: `WF` is checked per document, not proved for every pre-order table; the
+child / sibling / attribute / parent / ancestor / self chains are still covered by the sample test and the
+correspondence only. -/
+theorem axes_spec_preceding_partial (d : Doc) (hw : d.WF) (n : Nat) (hn : n < d.length) :
+    d.findPreceeding n = d.axis .preceding n :=
+  Doc.findPreceeding_spec d hw n hn
+
+/-- **`axes_spec`: all thirteen axes, all well-formed documents.**  For every document table satisfying the decidable
+predicate `Doc.WF`, every axis and every context node (attribute contexts included), the `find*` function of `XPath.cpp`
+that `step` dispatches to returns exactly the nodes of the axis of XPath 1.0 §2.2, in proximity order (document order for
+forward axes, reverse document order for `ancestor`, `ancestor-or-self`, `preceding`, `preceding-sibling` — the order
+`step` numbers predicates in).  Walks: `findDescendants`, `findFollowing`, `findPreceeding`; chains: `findChildren`,
+`findAttributes`, `findFollowingSiblings`, `findPreceedingSiblings`, `findAncestors`, `findAncestorsOrSelf`; `findParent`,
+`findSelf`; the namespace axis is empty on both sides (no namespace nodes in the modelled documents).
+`_partial`: `WF` is evaluated by `xm_c02` on every document of the correspondence run; that the table of *every* tree
+numbered in pre-order satisfies `WF` is not proved. -/
+theorem axes_spec_partial (d : Doc) (hw : d.WF) (a : Axis) (n : Nat) (hn : n < d.length) :
+    d.find a n = d.axis a n :=
+  Doc.find_spec d hw a n hn
 
 /-- `axes_spec`, **test only** (kernel-evaluated on one 13-node document with attributes, text, comment,
 nested elements; all 13 axes × all 13 context nodes, attribute contexts included): each `find*` walk
